@@ -1058,4 +1058,60 @@ theorem c14_http_watch_loop_alive (cfg : Cfg) (evs : List Ev) (hst : (run cfg ev
         generalize runFrom cfg (wLock cfg s1) (List.replicate s1.pending.length .wSend) = s3 at a b c d e f
         simp [runFrom, step, wUnlock, wBackoffDone, wResub, a, b, f, hb2]
 
+/-! ## (d) Health -/
+
+/-- `/health` answers 200 exactly when the chain info is available and the last round seen on the watch stream is the
+expected current round or the one before; the body always reports the last round seen -/
+theorem c14_http_health_status (lastSeen : Nat) (info : Option Info) (now : Int) :
+    ((healthAnswer lastSeen info now).1 = 200 ↔
+      ∃ i, info = some i ∧ (lastSeen = Drand.Time.currentRoundM now i.period i.genesis ∨
+                            (lastSeen + 1) % two64 = Drand.Time.currentRoundM now i.period i.genesis)) ∧
+    ((healthAnswer lastSeen info now).1 = 200 ∨ (healthAnswer lastSeen info now).1 = 503) ∧
+    (healthAnswer lastSeen info now).2.1 = lastSeen := by
+  cases info with
+  | none => simp [healthAnswer]
+  | some i =>
+    simp only [healthAnswer]
+    split
+    · rename_i hc
+      simp at hc
+      simpa using hc
+    · rename_i hc
+      simp at hc
+      simp
+      exact hc
+
+/-! ## sample runs (non-vacuity of the statements above) -/
+
+def exInfo : Info := ⟨3600, 1000000⟩
+/-- the middle of round 10 -/
+def exNow : Int := 1000000 + 9 * 3600 + 1800
+
+/-- request 0 (round 5, served by `Get`) starts the watcher; the stream delivers round 10; request 1 for round 11 parks -/
+def exParked : List Ev :=
+  [.arrive 0 5 exNow (some exInfo), .eval1 0, .futureChk 0 exNow, .getAns 0 (some ⟨5, 55⟩), .close 0,
+   .wDeliver ⟨10, 1010⟩, .wLock, .wUnlock,
+   .arrive 1 11 exNow none, .eval1 1, .eval2 1]
+
+
+example : (run .asIs (exParked ++ [.wDeliver ⟨11, 1111⟩, .wLock])).wlocal = [1] := by decide
+example : (run .asIs exParked).pending = [1] := by decide
+example : ((run .asIs (exParked ++ [.ctxCancel 1])).reqs 1).pc = .parked ∧
+    ((run .asIs (exParked ++ [.ctxCancel 1])).reqs 1).cancelled = true := by decide
+/-- cancellation while the watcher is inside its notification loop, the waiter still to be notified -/
+example : ((run .asIs (exParked ++ [.ctxCancel 1, .wDeliver ⟨11, 1111⟩, .wLock])).reqs 1).pc = .parked ∧
+    (run .asIs (exParked ++ [.ctxCancel 1, .wDeliver ⟨11, 1111⟩, .wLock])).holder = .watcher ∧
+    (finishCancel (run .asIs (exParked ++ [.ctxCancel 1, .wDeliver ⟨11, 1111⟩, .wLock])) 1).length = 7 := by decide
+example : (run .asIs exParked).wpc = .selecting ∧ (run .asIs exParked).holder = .free ∧ (run .asIs exParked).started = true := by
+  decide
+example : ((run .asIs (exParked ++ [.wDeliver ⟨11, 1111⟩, .wLock, .wSend, .wUnlock])).reqs 1).pc = .parked ∧
+    ((run .asIs (exParked ++ [.wDeliver ⟨11, 1111⟩, .wLock, .wSend, .wUnlock])).chans 1).buf = some (.json ⟨11, 1111⟩) := by
+  decide
+example : ((run .asIs (exParked ++ [.wDeliver ⟨11, 1111⟩, .wLock, .wSend, .wUnlock, .recv 1, .close 1])).chans 1).closed = true := by
+  decide
+example : (run .asIs (exParked ++ [.wClosed])).wpc = .gotClosed ∧ (run .asIs (exParked ++ [.wClosed])).holder = .free ∧
+    (run .asIs (exParked ++ [.wClosed])).latest = 10 := by decide
+example : (healthAnswer 10 (some exInfo) exNow).1 = 200 ∧ (healthAnswer 9 (some exInfo) exNow).1 = 200 ∧
+    (healthAnswer 8 (some exInfo) exNow).1 = 503 ∧ (healthAnswer 10 none exNow).1 = 503 := by decide
+
 end Drand.Http
